@@ -14,7 +14,7 @@ func vhNeedsUpdateTable() {
 	var pf *vFacts
 	parent := -1
 	if withParent {
-		pf = vMakeEntityN(d, 0, -1, 1, 1)
+		pf = vMakeEntityN(d, 0, -1, []int{1}, []int{1})
 		parent = 0
 	}
 	f := vMakeEntity(d, len(d.ents), parent)
@@ -34,4 +34,89 @@ func vhNeedsUpdateTable() {
 	}
 	vAssert(got == want, "needsUpdate disagrees with the C11 decision table")
 	vAssert(len(d.log) == 0, "needsUpdate must not modify the database")
+}
+
+// vForest draws a forest on n entities: parent[i] in {-1, 0..i-1}.
+func vForest(d *vDB, n int, arts, hashes []int) []*vFacts {
+	fs := make([]*vFacts, n)
+	for i := 0; i < n; i++ {
+		parent := -1
+		if i > 0 {
+			parent = vChoose(vName("parent", i), i+1) - 1
+		}
+		fs[i] = vMakeEntityN(d, i, parent, arts, hashes)
+	}
+	return fs
+}
+
+func vIndexOf(list ChangeList, alias string) int {
+	for k, c := range list {
+		if c.Alias == alias {
+			return k
+		}
+	}
+	return -1
+}
+
+// vhPlanForest: C11 for whole hierarchies. The change list must be exactly
+// the entities with an own reason or a regenerated issuer, issuers first,
+// ChangeReplace iff a certificate existed.
+func vhPlanForest() {
+	n := vParam("N", 3)
+	d := &vDB{}
+	arts, hashes := []int{1, 0}, []int{1}
+	if vParam("RICH", 0) == 1 {
+		arts, hashes = []int{1, 0, 2}, []int{1, 2}
+	}
+	fs := vForest(d, n, arts, hashes)
+	strat := vInt("strat", 0, 31)
+	now := time.Now() // drawn before the call: needsUpdate is summarised
+
+	list, err := PlanBulkUpdate(d, UpdateStrategy(strat))
+	vAssert(err == nil, "PlanBulkUpdate failed on a consistent database")
+	vAssert(len(d.log) == 0, "planning must not modify the database")
+
+	want := make([]bool, n)
+	for i := 0; i < n; i++ {
+		e := d.ents[i]
+		var pf *vFacts
+		if e.parent >= 0 {
+			pf = fs[e.parent]
+		}
+		want[i] = vReason(strat, fs[i], pf, now)
+		if e.parent >= 0 {
+			want[i] = vOr(want[i], want[e.parent])
+		}
+		k := vIndexOf(list, e.alias)
+		vAssert((k >= 0) == want[i], "change list differs from the set of entities that must be regenerated")
+		if k >= 0 {
+			vReach("planned")
+			if e.parent >= 0 {
+				pk := vIndexOf(list, d.ents[e.parent].alias)
+				vAssert(pk < k, "an issuer is planned after the entity it signs")
+				if pk >= 0 {
+					vReach("issuer-and-subject-planned")
+				}
+			}
+			if fs[i].hasCert {
+				vAssert(list[k].Change == ChangeReplace, "existing certificate not reported as replace")
+			} else {
+				vAssert(list[k].Change == ChangeCreate, "missing certificate not reported as create")
+			}
+			vAssert(list[k].EffectiveConfig.Alias == e.alias, "effective config of another entity")
+		} else {
+			vReach("kept")
+		}
+	}
+	seen := 0
+	for range list {
+		seen++
+	}
+	cnt := 0
+	for i := 0; i < n; i++ {
+		if vIndexOf(list, d.ents[i].alias) >= 0 {
+			cnt++
+		}
+	}
+	vAssert(seen == cnt, "change list contains duplicates or unknown aliases")
 }
